@@ -99,6 +99,12 @@ pub enum CheckedMode {
     Checked,
     /// `CheckedTransaction` labelled with another version (forces a re-check)
     CheckedOtherVersion,
+    /// checked one block earlier (same parameters): the executor itself must
+    /// notice an expiration that has passed meanwhile
+    CheckedEarlier,
+    /// checked under the parameters that were in force *before* the last
+    /// upgrade and labelled with that older version: must be re-checked
+    CheckedOld,
 }
 
 #[derive(Clone, Debug, PartialEq, Eq, Hash)]
@@ -222,6 +228,13 @@ pub struct GenOptions {
     pub resubmit_heavy: bool,
     /// only plain transfers (count stress)
     pub plain_only: bool,
+    /// put a privileged consensus-parameter `Upgrade` first in the block
+    pub force_upgrade: bool,
+    /// per-mille of transactions that are gas burners (countdown loops that
+    /// really use their script gas limit)
+    pub burners_permille: u32,
+    /// forced (relayed) transactions are often gas burners with a large gas limit
+    pub forced_burners: bool,
 }
 
 impl Default for GenOptions {
@@ -235,6 +248,9 @@ impl Default for GenOptions {
             revert_heavy: false,
             resubmit_heavy: false,
             plain_only: false,
+            force_upgrade: false,
+            burners_permille: 30,
+            forced_burners: false,
         }
     }
 }
@@ -572,7 +588,7 @@ impl ChainSession {
 
     // ------------------------------------------------------------------ relayer events
 
-    fn gen_da_events(&mut self, rng: &mut StdRng, da: u64, wallet: &mut Wallet) -> Vec<Event> {
+    fn gen_da_events(&mut self, rng: &mut StdRng, opt: &GenOptions, da: u64, wallet: &mut Wallet) -> Vec<Event> {
         let mut out = Vec::new();
         let n = *pick(rng, &[0usize, 0, 1, 1, 2, 3]);
         for _ in 0..n {
@@ -622,10 +638,26 @@ impl ChainSession {
                     d.add_coin(self, utxo, &coin);
                     d.outputs.push(Output::coin(self.random_owner(rng), rng.gen_range(0..3), base));
                     d.outputs.push(Output::change(*coin.owner(), 0, base));
+                    let burner = opt.forced_burners && chance(rng, 60);
+                    let (f_script, f_data, f_gas) = if burner {
+                        let cap = self.params.tx_params().max_gas_per_tx().min(self.params.block_gas_limit());
+                        let share = *pick(rng, &[30u64, 50, 70]);
+                        let gas = (cap / 100 * share).min(cap.saturating_sub(150_000));
+                        let iters = if chance(rng, 70) { 262_143 } else { (gas / 12).min(262_143) as u32 };
+                        let p = programs::assemble_script(
+                            &[Step::Burn { iters }],
+                            Terminal::Ret,
+                            script_data_base(&self.params),
+                            0,
+                        );
+                        (p.script, p.data, gas)
+                    } else {
+                        (vec![], vec![], rng.gen_range(0..3) * 10_000)
+                    };
                     let tx = Transaction::script(
-                        rng.gen_range(0..3) * 10_000,
-                        vec![],
-                        vec![],
+                        f_gas,
+                        f_script,
+                        f_data,
                         Policies::new().with_max_fee(0),
                         d.inputs.clone(),
                         d.outputs.clone(),
@@ -644,10 +676,12 @@ impl ChainSession {
                     );
                     let actual = fuel_core_types::blockchain::transaction::TransactionExt::max_gas(&tx, &self.params)
                         .unwrap_or(0);
-                    let claimed = match rng.gen_range(0..5) {
+                    // boundary claims: one below, exactly, one above, generous
+                    let claimed = match rng.gen_range(0..8) {
                         0 => actual.saturating_sub(1),
-                        1 => actual,
-                        _ => actual + rng.gen_range(0..5_000),
+                        1..=3 => actual,
+                        4 => actual + 1,
+                        _ => actual + rng.gen_range(2..5_000),
                     };
                     out.push(Event::Transaction(RelayedTransaction::V1(RelayedTransactionV1 {
                         nonce,
@@ -761,7 +795,7 @@ impl ChainSession {
         while self.relayer_tip < self.da_height + want_adv + lookahead {
             let da = self.relayer_tip + 1;
             let events = if opt.relayer_events {
-                self.gen_da_events(rng, da, &mut wallet)
+                self.gen_da_events(rng, opt, da, &mut wallet)
             } else {
                 vec![]
             };
@@ -800,6 +834,11 @@ impl ChainSession {
         let lo = *opt.txs.start();
         let hi = (*opt.txs.end()).min(self.cfg.max_txs_per_block).max(lo);
         let n = rng.gen_range(lo..=hi);
+        if opt.force_upgrade && !opt.plain_only {
+            if let Some(p) = self.gen_upgrade(rng, &plan, &mut wallet, true) {
+                plan.txs.push(p);
+            }
+        }
         let mut k = 0;
         while plan.txs.len() < n && k < n * 3 {
             k += 1;
@@ -808,7 +847,7 @@ impl ChainSession {
                 plan.txs.push(p);
             }
         }
-        if chance(rng, 30) && !opt.plain_only {
+        if chance(rng, 30) && !opt.plain_only && !opt.force_upgrade {
             plan.txs.shuffle(rng);
         }
         plan
@@ -848,6 +887,9 @@ impl ChainSession {
         } else {
             Twist::None
         };
+        if rng.gen_range(0..1000) < opt.burners_permille {
+            return self.gen_burner(rng, plan, w).into_iter().collect();
+        }
         let resub = if opt.resubmit_heavy { 22 } else { 7 };
         let roll = rng.gen_range(0..100);
         let mut out: Vec<PlannedTx> = Vec::new();
@@ -882,7 +924,7 @@ impl ChainSession {
         } else if roll < resub + 18 && !opt.revert_heavy {
             out.extend(self.gen_upload(rng, plan, w));
         } else if roll < resub + 20 && opt.upgrades && !opt.revert_heavy {
-            out.extend(self.gen_upgrade(rng, plan, w));
+            out.extend(self.gen_upgrade(rng, plan, w, false));
         } else if roll < resub + 42 && !opt.revert_heavy {
             out.extend(self.gen_transfer(rng, plan, w, twist, false));
         } else {
@@ -907,10 +949,17 @@ impl ChainSession {
         for p in out.iter_mut() {
             if p.checked == CheckedMode::Raw && !matches!(p.kind, TxKind::SourceMint) {
                 let r = rng.gen_range(0..100);
-                if r < 22 {
+                if p.twist == Twist::Expired && r < 60 {
+                    // valid when it was checked a block ago, expired now
+                    p.checked = CheckedMode::CheckedEarlier;
+                } else if self.prev_params.is_some() && r < 30 {
+                    p.checked = CheckedMode::CheckedOld;
+                } else if r < 48 {
                     p.checked = CheckedMode::Checked;
-                } else if r < 28 {
+                } else if r < 54 {
                     p.checked = CheckedMode::CheckedOtherVersion;
+                } else if r < 58 {
+                    p.checked = CheckedMode::CheckedEarlier;
                 }
             }
         }
@@ -1576,27 +1625,104 @@ impl ChainSession {
         Some(self.wrap(tx, TxKind::Upload, Twist::None, &d, None, None))
     }
 
-    fn gen_upgrade(&mut self, rng: &mut StdRng, plan: &BlockPlan, w: &mut Wallet) -> Option<PlannedTx> {
+    /// Consensus parameters for the next upgrade: toggles one rule between its
+    /// genesis value and a much tighter one (so that transactions valid under
+    /// the previous version can violate the next and vice versa).
+    fn next_params(&self, rng: &mut StdRng) -> (ConsensusParameters, &'static str) {
+        let init = &self.initial_params;
+        let cur = &self.params;
+        let mut p = cur.clone();
+        let what = match rng.gen_range(0..8) {
+            0 => {
+                let tight = 120;
+                let v = if cur.script_params().max_script_data_length() == init.script_params().max_script_data_length() {
+                    tight
+                } else {
+                    init.script_params().max_script_data_length()
+                };
+                p.set_script_params(cur.script_params().with_max_script_data_length(v));
+                "max_script_data_length"
+            }
+            1 => {
+                let tight = 44;
+                let v = if cur.script_params().max_script_length() == init.script_params().max_script_length() {
+                    tight
+                } else {
+                    init.script_params().max_script_length()
+                };
+                p.set_script_params(cur.script_params().with_max_script_length(v));
+                "max_script_length"
+            }
+            2 => {
+                let i = init.tx_params().max_gas_per_tx();
+                let v = if cur.tx_params().max_gas_per_tx() == i { i / 100 * 45 } else { i };
+                p.set_tx_params(cur.tx_params().with_max_gas_per_tx(v));
+                "max_gas_per_tx"
+            }
+            3 => {
+                let i = init.tx_params().max_outputs();
+                let v = if cur.tx_params().max_outputs() == i { 4 } else { i };
+                p.set_tx_params(cur.tx_params().with_max_outputs(v));
+                "max_outputs"
+            }
+            4 => {
+                let i = init.tx_params().max_witnesses();
+                // not below 2: an Upgrade itself needs a signature and the parameters witness
+                let v = if cur.tx_params().max_witnesses() == i { 2 } else { i };
+                p.set_tx_params(cur.tx_params().with_max_witnesses(v));
+                "max_witnesses"
+            }
+            5 => {
+                // (max_size is left alone: an Upgrade transaction is large and must stay possible)
+                let i = init.tx_params().max_inputs();
+                let v = if cur.tx_params().max_inputs() == i { 3 } else { i };
+                p.set_tx_params(cur.tx_params().with_max_inputs(v));
+                "max_inputs"
+            }
+            6 => {
+                let i = init.predicate_params().max_predicate_length();
+                let v = if cur.predicate_params().max_predicate_length() == i { 8 } else { i };
+                p.set_predicate_params(cur.predicate_params().with_max_predicate_length(v));
+                "max_predicate_length"
+            }
+            _ => {
+                p.set_block_gas_limit(cur.block_gas_limit().saturating_add(rng.gen_range(1..50_000u64)));
+                "block_gas_limit"
+            }
+        };
+        (p, what)
+    }
+
+    fn gen_upgrade(
+        &mut self,
+        rng: &mut StdRng,
+        plan: &BlockPlan,
+        w: &mut Wallet,
+        force_privileged: bool,
+    ) -> Option<PlannedTx> {
         // privileged address is owner 0 (sometimes try with a non-privileged owner)
         let base = self.base_asset();
-        let privileged = chance(rng, 75);
+        let privileged = force_privileged || chance(rng, 75);
         let owner = if privileged { self.owners[0].address } else { self.owners[1].address };
+        let need = self
+            .params
+            .tx_params()
+            .max_gas_per_tx()
+            .saturating_add(100_000)
+            .saturating_mul(plan.gas_price.max(1));
         let cands: Vec<(UtxoId, CompressedCoin)> = w
             .coins
             .iter()
-            .filter(|(u, c)| {
-                c.owner() == &owner && c.asset_id() == &base && *c.amount() >= 2_000_000_000 && !w.used_coins.contains(u)
-            })
+            .filter(|(u, c)| c.owner() == &owner && c.asset_id() == &base && *c.amount() >= need && !w.used_coins.contains(u))
             .cloned()
             .collect();
         let (u, c) = cands.first()?.clone();
         w.used_coins.insert(u);
         let mut d = Draft::new(vec![]);
         d.add_coin(self, u, &c);
-        self.add_changes(rng, &mut d, Twist::None);
-        let mut new_params = self.params.clone();
-        let delta = rng.gen_range(1..50_000u64);
-        new_params.set_block_gas_limit(self.params.block_gas_limit().saturating_add(delta));
+        // the change goes back to the same owner so that later upgrades stay possible
+        d.outputs.push(Output::change(owner, 0, base));
+        let (new_params, _what) = self.next_params(rng);
         let tx = Transaction::upgrade_consensus_parameters(
             &new_params,
             self.policies(rng, plan, Twist::None),
@@ -1608,6 +1734,39 @@ impl ChainSession {
         let f = self.finish_opts(rng, plan, Twist::None);
         let tx = finish(self, tx, &d, &f);
         Some(self.wrap(tx, TxKind::Upgrade, Twist::None, &d, None, None))
+    }
+
+    /// A script that really burns gas: a countdown loop, usually longer than
+    /// its gas limit allows (then the whole limit is used and the tx fails).
+    fn gen_burner(&mut self, rng: &mut StdRng, plan: &BlockPlan, w: &mut Wallet) -> Option<PlannedTx> {
+        let mut d = Draft::new(vec![]);
+        if !self.fund(rng, plan, w, &mut d, Twist::None, false) {
+            return None;
+        }
+        self.add_changes(rng, &mut d, Twist::None);
+        let cap = self.params.tx_params().max_gas_per_tx();
+        let share = *pick(rng, &[20u64, 45, 70, 100]);
+        let gas_limit = (cap / 100 * share).min(cap.saturating_sub(120_000)).max(10_000);
+        let iters = if chance(rng, 70) { 262_143 } else { (gas_limit / 12).min(262_143) as u32 };
+        let steps = vec![Step::Burn { iters }];
+        let prog = programs::assemble_script(&steps, Terminal::Ret, script_data_base(&self.params), 0);
+        let tx = Transaction::script(
+            gas_limit,
+            prog.script,
+            prog.data,
+            self.policies(rng, plan, Twist::None),
+            d.inputs.clone(),
+            d.outputs.clone(),
+            d.witnesses.clone(),
+        );
+        let f = self.finish_opts(rng, plan, Twist::None);
+        let tx = finish(self, tx, &d, &f);
+        let info = ScriptInfo {
+            steps,
+            terminal: Terminal::Ret,
+            gas_limit,
+        };
+        Some(self.wrap(tx, TxKind::Script, Twist::None, &d, Some(info), None))
     }
 
     /// A `Mint` transaction as a (misbehaving) source would hand it in.
